@@ -17,7 +17,7 @@
 (* SortBulk = TRUE is the code after the `fix:` that makes bulk requests write *)
 (* storage in timestamp order (as the set is updated); FALSE is the pinned    *)
 (* code, which wrote in message order.                                        *)
-EXTENDS Orswot, TLC, Json
+EXTENDS KeyspaceOps, TLC, Json
 
 CONSTANTS Times, MaxReqs, SortBulk, WithCrash, WithBulk, EmitEdges
 
@@ -53,26 +53,6 @@ WriteSeq(s, items, tomb) ==
   IF items = <<>> THEN s
   ELSE WriteSeq([s EXCEPT ![items[1][1]] = Entry(items[1][2], tomb)], Tail(items), tomb)
 
-SeqFilter(items, P(_)) ==
-  LET Acc[i \in 0..Len(items)] ==
-        IF i = 0 THEN <<>> ELSE IF P(items[i]) THEN Append(Acc[i - 1], items[i]) ELSE Acc[i - 1]
-  IN Acc[Len(items)]
-
-\* stable sort of a sequence of <<k, ts>> by stamp (the actor's `valid_entries.sort_by_key(|e| e.1)`)
-RECURSIVE SortByTs(_)
-SortByTs(items) ==
-  IF items = <<>> THEN <<>>
-  ELSE LET i == CHOOSE i \in 1..Len(items) :
-                  \A j \in 1..Len(items) : /\ ~Lt(items[j][2], items[i][2])
-                                           /\ (items[j][2] = items[i][2] => i <= j)
-       IN <<items[i]>> \o SortByTs(SubSeq(items, 1, i - 1) \o SubSeq(items, i + 1, Len(items)))
-
-RECURSIVE ApplySeq(_, _, _, _)
-ApplySeq(s, src, items, isDel) ==
-  IF items = <<>> THEN s
-  ELSE LET r == IF isDel THEN DeleteWS(s, src, items[1][1], items[1][2]) ELSE InsertWS(s, src, items[1][1], items[1][2])
-       IN ApplySeq(r[2], src, Tail(items), isDel)
-
 ----------------------------------------------------------------------------
 \* actor messages
 
@@ -81,11 +61,10 @@ Single(isDel, src, k, ts, outcome) ==
   LET kind == IF isDel THEN "del" ELSE "ins"
       wa == WillApply(st, k, ts)
       written == wa /\ outcome = "ok"
-      r == IF isDel THEN DeleteWS(st, src, k, ts) ELSE InsertWS(st, src, k, ts)
   IN /\ CanUse(ts, kind)
      /\ reg' = Register(reg, {ts}, kind)
      /\ store' = IF written THEN [store EXCEPT ![k] = Entry(ts, isDel)] ELSE store
-     /\ st' = IF written THEN r[2] ELSE st
+     /\ st' = SingleSt(st, isDel, src, k, ts, outcome)
      /\ acked' = IF (wa /\ outcome = "ok") \/ (~wa /\ ~BeforeSafe(st, ts)) THEN acked \cup {<<k, ts, isDel>>} ELSE acked
      /\ op' = [kind |-> IF isDel THEN "del" ELSE "set", src |-> src, items |-> << <<k, ts>> >>, outcome |-> outcome,
                written |-> IF written THEN {k} ELSE {}, ok |-> (~wa \/ outcome = "ok")]
@@ -94,16 +73,15 @@ Single(isDel, src, k, ts, outcome) ==
 \* outcome "ok", or "fail" with W = the ids storage reports as written (exactly those are written)
 Bulk(isDel, src, items, outcome, W) ==
   LET kind == IF isDel THEN "del" ELSE "ins"
-      valid == SeqFilter(items, LAMBDA e : WillApply(st, e[1], e[2]))
+      valid == BulkValid(st, items)
       toStorage == IF SortBulk THEN SortByTs(valid) ELSE valid
       wrote == IF outcome = "ok" THEN toStorage ELSE SeqFilter(toStorage, LAMBDA e : e[1] \in W)
-      toSet == SortByTs(IF outcome = "ok" THEN valid ELSE SeqFilter(valid, LAMBDA e : e[1] \in W))
   IN /\ \A i \in 1..Len(items) : CanUse(items[i][2], kind)
      /\ outcome = "fail" => W \subseteq { valid[i][1] : i \in 1..Len(valid) }
      /\ outcome = "ok" => W = {}
      /\ reg' = Register(reg, { items[i][2] : i \in 1..Len(items) }, kind)
      /\ store' = WriteSeq(store, wrote, isDel)
-     /\ st' = ApplySeq(st, src, toSet, isDel)
+     /\ st' = BulkSt(st, isDel, src, items, outcome, W)
      /\ acked' = IF outcome = "ok" THEN acked \cup { <<items[i][1], items[i][2], isDel>> : i \in { j \in 1..Len(items) : ~BeforeSafe(st, items[j][2]) } } ELSE acked
      /\ op' = [kind |-> IF isDel THEN "mdel" ELSE "mset", src |-> src, items |-> items, outcome |-> outcome,
                written |-> IF outcome = "ok" THEN { valid[i][1] : i \in 1..Len(valid) } ELSE W, ok |-> outcome = "ok"]
@@ -113,11 +91,10 @@ DoPurge(outcome, W) ==
   LET r == Purge(st)
       keys == { p[1] : p \in r[1] }
       removed == IF outcome = "ok" THEN keys ELSE W
-      readd == { p \in r[1] : p[1] \notin W }
   IN /\ outcome = "fail" => W \subseteq keys
      /\ outcome = "ok" => W = {}
      /\ store' = [k \in Keys |-> IF k \in removed THEN NoneE ELSE store[k]]
-     /\ st' = IF outcome = "ok" THEN r[2] ELSE AddRawTombstones(r[2], readd)
+     /\ st' = PurgeSt(st, outcome, W)
      /\ UNCHANGED <<reg, acked>>
      /\ op' = [kind |-> "purge", outcome |-> outcome, written |-> removed, purged |-> keys, ok |-> outcome = "ok"]
 
